@@ -2,6 +2,7 @@ package props
 
 import (
 	"bytes"
+	"crypto/sha256"
 	"crypto/x509"
 	"regexp"
 
@@ -68,9 +69,16 @@ func c03Eval(t gen.TB, w *gen.World, k c03Kind, resp gen.Response, class, desc s
 	saved := w.Resp[u]
 	defer func() { w.Resp[u] = saved }()
 	w.Resp[u] = resp
-	o := w.Options(gen.LvlColl, w.NewGetter(), nil)
+	// half of the evaluations also check revocation, with authentic CRLs that list unrelated certificates (what an
+	// altered document may count for does not depend on which further checks are switched on)
+	lvl := gen.LvlColl
+	if h := sha256.Sum256(resp.Body); h[0]&1 == 1 {
+		lvl = gen.LvlCRL
+	}
+	o := w.Options(lvl, w.NewGetter(), nil)
 	gen.Eval()
 	v, hung := gen.CallWatch(30*time.Second, func() error { return verify.RawTdxQuote(w.Raw, o) })
+	gen.Class("level:" + lvl.String())
 	if hung {
 		rp := w.CaseFile(gen.LvlColl, nil, nil, nil, "c03")
 		rp["kind"], rp["which"] = "collateral", k.name
@@ -464,6 +472,43 @@ func TestC03(t *testing.T) {
 		}
 	})
 
+	// (A5) the trusted roots of a re-used options value are replaced by the caller between two calls: from then on
+	// collateral (and chains) under the FORMER roots count for nothing
+	gen.Prop(t, "trusted-roots-replaced-on-a-reused-options-value", gen.N(200, 15000), func(t *rapid.T) {
+		w, _ := gen.DrawWorld(t, gen.WorldCfg{MaxAuth: 16, Simple: true})
+		w.Build()
+		lvl := rapid.SampledFrom([]gen.Level{gen.LvlColl, gen.LvlCRL}).Draw(t, "level")
+		o := w.Options(lvl, w.NewGetter(), nil)
+		if rapid.Bool().Draw(t, "firstCall") {
+			gen.Eval()
+			if v := gen.Call(func() error { return verify.RawTdxQuote(w.Raw, o) }); !v.Accepted() {
+				gen.HarnessError(t, "honest world rejected: %s", v)
+			}
+		}
+		// a quote under another PKI B whose collateral endpoint still serves (or is made to serve) documents signed under
+		// the former root A with content matching B's quote
+		other := gen.NewPKI(gen.PKISpec{Seed: "pki-replaced-roots"})
+		wb := *w
+		wb.PKI = other
+		wb.Leaf = nil
+		wb.Q = w.Q.Clone()
+		wb.SignQuote()
+		o.TrustedRoots = other.Pool() // the caller now trusts B only
+		o.Getter = w.NewGetter()      // ... and the endpoint serves A-signed collateral
+		target := wb.Raw
+		if rapid.Bool().Draw(t, "sameQuoteAgain") {
+			target = w.Raw // the very quote (chain and collateral under the former root A) verified before
+		}
+		gen.Eval()
+		v := gen.Call(func() error { return verify.RawTdxQuote(target, o) })
+		gen.NonTrivial("roots-replaced", lvl.String(), wb.Raw[:32])
+		gen.Class("roots-replaced:" + v.Short())
+		if v.Accepted() {
+			gen.Fail(t, gen.Violation{Key: "accepts-unauthentic:collateral-under-former-roots", Oracle: "collateral counts only if its signer chains to the roots trusted NOW", Detail: fmt.Sprintf("level %s: after the options' TrustedRoots were replaced by another PKI's root, a quote is accepted with collateral signed under the former root", lvl),
+				Replay: map[string]any{"kind": "c03-roots-replaced"}})
+		}
+	})
+
 	// (B..F) structured alterations.
 	alterations := []string{
 		"foreign-signer-header-foreign", "foreign-signer-header-genuine", "signed-by-pck-leaf", "signed-by-intermediate", "signed-by-root", "signer-wrong-name", "signer-self-signed-lookalike-root",
@@ -481,6 +526,10 @@ func TestC03(t *testing.T) {
 		k := rapid.SampledFrom(kinds).Draw(t, "kind")
 		alt := rapid.SampledFrom(alterations).Draw(t, "alteration")
 		w, _ := gen.DrawWorld(t, gen.WorldCfg{MaxAuth: 16, Simple: true, NoModule: alt != "signed-omits-field-unsigned-supplies-it", ForceModule: alt == "signed-omits-field-unsigned-supplies-it" && k.name == "tcb"})
+		for i, n := 0, rapid.IntRange(0, 3).Draw(t, "unrelatedRevocations"); i < n; i++ {
+			w.RootCrl.Revoked = append(w.RootCrl.Revoked, []byte{0x31, byte(i), 0x77, 0x01})
+			w.PckCrl.Revoked = append(w.PckCrl.Revoked, []byte{0x32, byte(i), 0x78})
+		}
 		w.Build()
 		// Optionally the signed document is bad / good while the unsigned payload says the opposite.
 		signedBad := rapid.IntRange(0, 2).Draw(t, "signedBad")
